@@ -208,10 +208,10 @@ func (w *clWorld) poll(c *clCall, d time.Duration) string {
 	}
 }
 
-func clClassify(idx int, p []byte, err error) string {
+func clClassify(c *clCall, idx int, p []byte, err error) string {
 	if err == nil {
-		if len(p) == 4 && binary.LittleEndian.Uint32(p) == uint32(3+2*idx) {
-			return fmt.Sprintf("reply %d", 3+2*idx)
+		if len(p) == 4 && binary.LittleEndian.Uint32(p) == atomic.LoadUint32(&c.id) {
+			return fmt.Sprintf("reply %d", idx)
 		}
 		return "reply-wrong"
 	}
@@ -225,13 +225,18 @@ func clClassify(idx int, p []byte, err error) string {
 	return "error"
 }
 
-// waitArrival waits until the Write with this key blocks in the stream, or the call returns
-func (w *clWorld) waitArrival(c *clCall, k wkey) string {
+// waitArrival waits until the Write of this call (its call frame: the id is learnt from it; or its
+// cancel frame) blocks in the stream, or the call returns
+func (w *clWorld) waitArrival(c *clCall, typ uint8) string {
 	deadline := time.After(clCeil())
 	for {
 		select {
 		case a := <-w.st.arrived:
-			if a == k {
+			if typ == qnet.Call && a.typ == qnet.Call && atomic.LoadUint32(&c.id) == 0 {
+				atomic.StoreUint32(&c.id, a.id)
+				return "writing"
+			}
+			if typ == qnet.Cancel && a.typ == qnet.Cancel && a.id == atomic.LoadUint32(&c.id) {
 				return "writing"
 			}
 		case r := <-c.done:
@@ -315,13 +320,13 @@ func execCl(op string) func(a []string) string {
 			return clReset()
 		case "call":
 			idx := len(w.calls)
-			c := &clCall{id: uint32(3 + 2*idx), cancel: make(chan struct{}), done: make(chan string, 1)}
+			c := &clCall{cancel: make(chan struct{}), done: make(chan string, 1)}
 			w.calls = append(w.calls, c)
 			go func() {
 				p, err := w.client.Call(c.cancel, 1, 1, 100, []byte{byte(idx)})
-				c.done <- clClassify(idx, p, err)
+				c.done <- clClassify(c, idx, p, err)
 			}()
-			return w.waitArrival(c, wkey{c.id, qnet.Call})
+			return w.waitArrival(c, qnet.Call)
 		case "wok", "wfail":
 			c := w.calls[n(0)]
 			w.st.mu.Lock()
@@ -361,7 +366,7 @@ func execCl(op string) func(a []string) string {
 			default:
 			}
 			close(c.cancel)
-			return w.waitArrival(c, wkey{c.id, qnet.Cancel})
+			return w.waitArrival(c, qnet.Cancel)
 		case "reply":
 			c := w.calls[n(0)]
 			p := make([]byte, 4)
